@@ -1,13 +1,13 @@
 from props import Prop, Stream, reg
 
 reg(Prop('C19', [
-    Stream('c19.closure', 12000, 600000, 'spec',
-           exhaustive='every 3-entry forest shape x {variable,structure_type,namespace,subprogram}^3 x every required subset; every single reference a->b between 3 entries (attribute UnitRef/DebugInfoRef, DW_OP_call4, live location list) x every shape x every subset; random forests of <= 10 entries get all 2^n subsets'),
-    Stream('c19.sites', 6000, 300000, 'spec',
+    Stream('c19.closure', 25000, 600000, 'spec',
+           exhaustive='every 3-entry forest shape x {variable,structure_type,namespace,subprogram}^3 x every required subset; every single reference a->b between 3 entries (attribute UnitRef/DebugInfoRef, DW_OP_call4, live location list) x every shape x every subset; every random forest of <= 10 entries is run with all 2^n required subsets'),
+    Stream('c19.sites', 12000, 300000, 'spec',
            exhaustive='required DIE -> otherwise unreachable DIE through every reference carrier (exprloc / live, empty, inverted, tombstoned location-list entry) x every reference-carrying operation x nesting 0/1 in DW_OP_entry_value x 4 encodings'),
-    Stream('c19.tags', 3000, 200000, 'spec',
+    Stream('c19.tags', 5000, 200000, 'spec',
            exhaustive='every DW_TAG 0x01..0x50 and every vendor tag of constants.rs as child x 4 parent tags x DW_AT_declaration x which DIE is required'),
-    Stream('c19.big', 3000, 100000, 'spec'),
+    Stream('c19.big', 5000, 100000, 'spec'),
 ], clauses=[
     'worklist_correct: FilterDependencies::get_reachable returns exactly the strictly sorted enumeration of the nodes reachable from the required set (all dependency maps, all required lists; never out of fuel with fuel = #nodes + #edges + 2)',
     'closure: for every well-formed forest and every required predicate the reserved set is the LEAST set containing the required DIEs and closed under parent, under the references the filter records, and under member-like children of retained non-namespace parents (children of the unit root get no parent edge)',
